@@ -41,7 +41,7 @@ def leg(t, i):
 
 COORDS_OK = "all(not isnan(X(%(t)s, r)) and not isnan(Y(%(t)s, r)) for r in range(0, npts(%(t)s)))"
 TIMES_OK = "all(wf(tstamp(%(t)s, r)) for r in range(0, npts(%(t)s)))"
-OTHER_OBS = ("all(implies(all(obs(%(t)s, q) != o for q in range(0, npts(%(t)s))), same(o.features, old(o.features))) "
+OTHER_OBS = ("all(implies(all(obs(%(t)s, q) != o for q in range(0, npts(%(t)s))), untouched(o, 'Obs.features')) "
              "for o in refs(Obs))")
 
 
@@ -130,7 +130,7 @@ def register(reg):
         nm = "name" if namekind else "'speed'"
         reg.add(Spec(T + "addAnalyticalFeature", params, "list[float]", bind=dict(algorithm=fn),
                      requires=["twf(self)", COORDS_OK % s_] + ([("not reserved(name)")] if namekind else []) + extra,
-                     raises={"AnalyticalFeatureError": "npts(self) <= 0"},
+                     raises={"AnalyticalFeatureError": "npts(self) <= 0 and not hasname(self, %s)" % nm},
                      modifies=["Obs.features", "Track." + DICO], fresh=["ENUCoords"],
                      ensures=[("wf", "twf(self)"),
                               ("listed", "hasname(self, %s)" % nm),
